@@ -46,10 +46,76 @@ def assert_list : JVal → List JVal × Bool
   | .arr xs => (xs, true)
   | _ => ([], false)
 
+/-! ### `float64` values (bit patterns), as far as `GetNumber` needs them
+
+  A finite double is `± m · 2^e` exactly (`F64.dyadic`).  Comparisons with an integer literal are
+  exact comparisons of that value with the literal; every comparison with a NaN is false, except
+  `!=`, which is true. -/
+
+/-- `math.Trunc(x)`: the fraction bits cleared (exponent below 0: a signed zero; no fraction
+    bits, infinities and NaNs: unchanged). -/
+def f64trunc (bits : Nat) : Nat :=
+  let ex := F64.expo bits
+  if ex ≥ 1075 then bits
+  else if ex < 1023 then F64.sign bits * 2 ^ 63
+  else bits - bits % 2 ^ (1075 - ex)
+
+/-- `a != b` on doubles: true if either is a NaN, false for `0` and `-0`, else by bit pattern. -/
+def f64ne (a b : Nat) : Bool :=
+  if F64.isNaN a || F64.isNaN b then true
+  else if a % 2 ^ 63 = 0 && b % 2 ^ 63 = 0 then false
+  else a != b
+
+/-- `x < n` for a natural-number literal `n` (exactly representable, so the literal is `n`). -/
+def f64ltNat (bits n : Nat) : Bool :=
+  if F64.isNaN bits then false
+  else if F64.isInf bits then F64.sign bits = 1
+  else match F64.dyadic bits with
+    | none => false
+    | some (neg, m, e) =>
+      if m = 0 then 0 < n
+      else if neg then true
+      else if e ≥ 0 then m * 2 ^ e.toNat < n else m < n * 2 ^ (-e).toNat
+
+/-- `x >= n` for a natural-number literal `n`. -/
+def f64geNat (bits n : Nat) : Bool :=
+  if F64.isNaN bits then false
+  else if F64.isInf bits then F64.sign bits = 0
+  else match F64.dyadic bits with
+    | none => false
+    | some (neg, m, e) =>
+      if m = 0 then n = 0
+      else if neg then false
+      else if e ≥ 0 then m * 2 ^ e.toNat ≥ n else m ≥ n * 2 ^ (-e).toNat
+
+/-- `uint64(x)`: the integer part for a value in range; outside the range the Go specification
+    leaves the result to the implementation (here 0 — callers guard the range). -/
+def f64toUint64 (bits : Nat) : Nat :=
+  match F64.toNat? (f64trunc bits) with
+  | some n => if n < 2 ^ 64 then n else 0
+  | none => 0
+
 /-- The `(value, error)` result of an external parser whose verdict is given as an `Option`: its
     errors are never `ErrKeyNotPresent`. -/
 def ofOption {α : Type} : Option α → Obj.R α
   | some a => .ok a
   | none => .error .wrong
+
+/-! ### Struct fields that come in `(x, xErr)` pairs, held as one result (`extract/go2lean5.go`) -/
+
+/-- `errors.Is(r.xErr, target)` for a field pair: false when `xErr` is nil. -/
+def errIs {α : Type} (r : Obj.R α) (target : Obj.Err) : Bool :=
+  match r with
+  | .error e => decide (e = target)
+  | .ok _ => false
+
+/-- `r.xErr == nil` for a field pair. -/
+def errNil {α : Type} (r : Obj.R α) : Bool :=
+  match r with
+  | .ok _ => true
+  | .error _ => false
+
+/-- `u.String()` for a parsed URL, which is represented by that string. -/
+def urlString (u : Str) : Str := u
 
 end Go
